@@ -1015,6 +1015,7 @@ type HookCall struct {
 }
 
 type Rt struct {
+	mu        sync.Mutex
 	HookCalls []HookCall
 }
 
@@ -1024,7 +1025,9 @@ type hookImpl struct {
 }
 
 func (h hookImpl) Run(e *zerolog.Event, level zerolog.Level, msg string) {
+	h.rt.mu.Lock()
 	h.rt.HookCalls = append(h.rt.HookCalls, HookCall{h.spec.ID, level, msg, CtxMarker(e.GetCtx())})
+	h.rt.mu.Unlock()
 	switch h.spec.Kind {
 	case "add":
 		ApplyEvent(e, h.spec.Ops)
@@ -1181,6 +1184,15 @@ func (rt *Rt) applyStep(parent *zerolog.Logger, st Step) (zerolog.Logger, *RecWr
 		ops := st.Ops
 		parent.UpdateContext(func(c zerolog.Context) zerolog.Context { return ApplyContext(c, ops) })
 		return *parent, nil
+	case "rehook":
+		// l = l.Hook(...): the program reassigns its logger variable; events already started keep the hooks
+		// they were created with
+		hs := make([]zerolog.Hook, len(st.Hooks))
+		for i, h := range st.Hooks {
+			hs[i] = rt.MkHook(h)
+		}
+		*parent = parent.Hook(hs...)
+		return *parent, nil
 	case "hook":
 		hs := make([]zerolog.Hook, len(st.Hooks))
 		for i, h := range st.Hooks {
@@ -1310,7 +1322,7 @@ func Run(p *Program) (res Result) {
 			st := p.Steps[a.I]
 			par := get(p.ParentOf(a.I))
 			l, w := rt.applyStep(par, st)
-			if st.Kind == "update" {
+			if InPlace(st.Kind) {
 				nodes[a.I] = par // same logger variable
 			} else {
 				nodes[a.I] = &l
@@ -1332,6 +1344,91 @@ func Run(p *Program) (res Result) {
 			delete(open, a.I)
 		}
 	}
+	return
+}
+
+// RunConcurrent builds the program's logger tree (all steps, in order), then emits every event reps
+// times: with g <= 1 one after the other, otherwise spread over g goroutines that start together and
+// log through their nodes at the same time. Open/finish ordering is not used.
+func RunConcurrent(p *Program, g, reps int) (res Result) {
+	restore := p.Set.Apply()
+	defer restore()
+	ScrubPools()
+	rt := &Rt{}
+	res.Rt = rt
+	writers := []*RecWriter{{}}
+	defer func() {
+		if r := recover(); r != nil {
+			res.Panic = r
+		}
+		for _, w := range writers {
+			res.Dests = append(res.Dests, w.Writes)
+		}
+	}()
+	root := zerolog.New(writers[0])
+	if p.Set.DefaultCtx {
+		dl := zerolog.New(writers[0]).With().Str(DefaultCtxKey, "default-context-logger").Logger()
+		zerolog.DefaultContextLogger = &dl
+		defer func() { zerolog.DefaultContextLogger = nil }()
+	}
+	nodes := make([]*zerolog.Logger, len(p.Steps))
+	get := func(i int) *zerolog.Logger {
+		if i < 0 {
+			return &root
+		}
+		return nodes[i]
+	}
+	for i, st := range p.Steps {
+		par := get(p.ParentOf(i))
+		l, w := rt.applyStep(par, st)
+		if InPlace(st.Kind) {
+			nodes[i] = par
+		} else {
+			nodes[i] = &l
+		}
+		if w != nil {
+			writers = append(writers, w)
+		}
+	}
+	emit := func(i int) {
+		ev := p.Events[i]
+		Finish(ApplyEvent(Start(get(p.NodeOf(i)), ev), ev.Ops), ev)
+	}
+	if g <= 1 {
+		for r := 0; r < reps; r++ {
+			for i := range p.Events {
+				emit(i)
+			}
+		}
+		return
+	}
+	var wg sync.WaitGroup
+	start := make(chan struct{})
+	var pmu sync.Mutex
+	for k := 0; k < g; k++ {
+		k := k
+		wg.Add(1)
+		go func() {
+			defer wg.Done()
+			defer func() {
+				if r := recover(); r != nil {
+					pmu.Lock()
+					res.Panic = r
+					pmu.Unlock()
+				}
+			}()
+			<-start
+			for r := 0; r < reps; r++ {
+				for i := range p.Events {
+					if i%g == k {
+						emit(i)
+					}
+				}
+			}
+		}()
+	}
+	close(start)
+	wg.Wait()
 	return
 }
 
